@@ -482,6 +482,7 @@ func runC08(env *Env) {
 	threeTokensOneTask(env, rep, "C08-first-wins", 4)
 	implicitEndTask(env, rep, "C08-results")
 	dataObjectsBetweenTasks(env, rep, "C08-results")
+	dataObjectRewrittenInALoop(env, rep, "C08-results")
 	env.WriteCases(rep, "_modes", "Corr.C08corr", "list nat * nat * nat * nat", citems, "c08_modes_mismatches")
 	env.WriteReport(rep)
 }
@@ -798,6 +799,73 @@ func dataObjectsBetweenTasks(env *Env, rep *Report, key string) {
 		read("R", fmt.Sprint(schema.NewValue(map[string]any{"id": 7}).Value()))
 		write("W2", "second")
 		read("R2", "second")
+		if problem == "" && !in.WaitCease(tmoStep) {
+			problem = "all tasks answered, the instance did not complete"
+		}
+		if problem != "" {
+			rep.Violate(key, cs, problem+"; log: "+logString(in.Log()))
+		}
+		in.Close()
+	}
+}
+
+// the same reader asked again and again: W stores a data output, R reads it as its data input, a gateway sends the token
+// round three times; every request of R carries what the W before it stored — with the object declared as a
+// <dataObject> of the process and without any declaration (stored under the output's name alone), and with the reader
+// supplied an initial object through WithDataObjects that W then replaces
+func dataObjectRewrittenInALoop(env *Env, rep *Report, key string) {
+	for v := 0; v < 3; v++ {
+		how := []string{"declared as a data object", "not declared anywhere", "not declared, an initial one supplied with the instance"}[v]
+		cs := "W writes the data output 'obj', R reads it, a gateway leads back to W, three rounds; 'obj' " + how
+		env.Current(cs)
+		p := &Prog{}
+		if v == 0 {
+			p.Raw = `<bpmn:dataObject id="obj"/>`
+		}
+		p.Node("start", "start")
+		p.Node("task", "W").Ext = `<olive:dataOutput name="obj" targetRef="obj"/>`
+		r := p.Node("task", "R")
+		r.Ext = `<olive:dataInput name="in" targetRef="obj"/>`
+		r.Results = []string{"again"}
+		g := p.Node("xor", "G")
+		p.Node("end", "end")
+		p.Flow("start", "W", "")
+		p.Flow("W", "R", "")
+		p.Flow("R", "G", "")
+		p.Flow("G", "W", "again == true")
+		g.Default = p.Flow("G", "end", "").ID
+		defs, err := ParseDefs(p.XML(""))
+		must(err)
+		opt := InstOpt{Vars: map[string]any{"again": false}}
+		if v == 2 {
+			opt.Opts = append(opt.Opts, bpmn.WithDataObjects(map[string]any{"obj": "initial"}))
+		}
+		in, err := StartInst(defs, opt)
+		must(err)
+		rep.Evaluations++
+		rep.Nontrivial++
+		rep.Count("data_object_rewritten_in_a_loop")
+		problem := ""
+		for round := 0; round < 3 && problem == ""; round++ {
+			val := fmt.Sprintf("round-%d", round)
+			if !in.Answer("W", tmoStep, bpmn.DoWithObjects(map[string]any{"obj": val})) {
+				problem = fmt.Sprintf("W not requested in round %d", round)
+				break
+			}
+			t := in.WaitTask("R", tmoStep)
+			if t == nil {
+				problem = fmt.Sprintf("R not requested in round %d", round)
+				break
+			}
+			got := "absent"
+			if it, ok := t.GetDataObjects()["in"]; ok && it != nil {
+				got = fmt.Sprint(it.Value())
+			}
+			if got != val {
+				problem = fmt.Sprintf("round %d: R is given its data input 'in' = %s; the W before it stored %s", round, got, val)
+			}
+			t.Do(bpmn.DoWithResults(map[string]any{"again": round < 2}))
+		}
 		if problem == "" && !in.WaitCease(tmoStep) {
 			problem = "all tasks answered, the instance did not complete"
 		}
